@@ -29,6 +29,15 @@ type renameCase struct {
 	Renamed  string            `json:"renamed"`
 	Mapping  map[string]string `json:"mapping"`
 	Backend  string            `json:"backend,omitempty"` // "" = bash, "batch" = cmd.exe model
+	Others   map[string]string `json:"other_files,omitempty"` // imported files (the same for base and renamed; Base/Renamed are main.tsh)
+}
+
+func withMain(src string, others map[string]string) map[string]string {
+	files := map[string]string{"main.tsh": src}
+	for k, v := range others {
+		files[k] = v
+	}
+	return files
 }
 
 type idPool struct {
@@ -181,8 +190,8 @@ type bashObs struct {
 	script      string
 }
 
-func observeBash(src string) bashObs {
-	tr := run.TranspileOne(src, run.Bash)
+func observeBash(src string, others map[string]string) bashObs {
+	tr := run.TranspileSrc(withMain(src, others), "main.tsh", run.Bash)
 	if !tr.Accepted() {
 		return bashObs{verdict: tr.Verdict(), stderr: tr.ErrText()}
 	}
@@ -191,8 +200,8 @@ func observeBash(src string) bashObs {
 }
 
 // observeBatch runs the Batch output under the cmd.exe model; inconclusive runs are reported as such.
-func observeBatch(src string) (verdict string, stdout string, status int, inconclusive string) {
-	tr := run.TranspileOne(src, run.Batch)
+func observeBatch(src string, others map[string]string) (verdict string, stdout string, status int, inconclusive string) {
+	tr := run.TranspileSrc(withMain(src, others), "main.tsh", run.Batch)
 	if !tr.Accepted() {
 		return tr.Verdict(), "", 0, ""
 	}
@@ -202,11 +211,11 @@ func observeBatch(src string) (verdict string, stdout string, status int, inconc
 
 // checkRenamePairBatch: same metamorphic relation for the Batch target under the cmd.exe model.
 func checkRenamePairBatch(c renameCase) (string, string) {
-	bv, bout, bst, binc := observeBatch(c.Base)
+	bv, bout, bst, binc := observeBatch(c.Base, c.Others)
 	if bv != "accept" || binc != "" {
 		return "", ""
 	}
-	nv, nout, nst, ninc := observeBatch(c.Renamed)
+	nv, nout, nst, ninc := observeBatch(c.Renamed, c.Others)
 	if nv == "reject" {
 		return "", ""
 	}
@@ -235,11 +244,11 @@ func checkRenamePair(c renameCase) (string, string) {
 	if c.Backend == "batch" {
 		return checkRenamePairBatch(c)
 	}
-	b := observeBash(c.Base)
+	b := observeBash(c.Base, c.Others)
 	if b.verdict != "accept" {
 		return "", "" // the base program is not this property's business
 	}
-	n := observeBash(c.Renamed)
+	n := observeBash(c.Renamed, c.Others)
 	switch n.verdict {
 	case "reject":
 		return "", ""
@@ -278,6 +287,9 @@ func TestC10(t *testing.T) {
 		cfg.MaxStmts, cfg.MaxFuncs, cfg.LoopBudget = 35, 5, 20
 	}
 	checkRapid(t, r, func(t *rapid.T) {
+		if gen.Uniform(0, 4).Draw(t, "family") == 0 && c10MultiFile(t, r) {
+			return
+		}
 		stmts, _ := gen.Stmts(t, cfg)
 		p := ts.Single(stmts)
 		ref, err := refRun(p, 2500, nil, nil)
@@ -497,4 +509,92 @@ func TestC10(t *testing.T) {
 		ms, _ := json.Marshal(mapping)
 		r.FailCase(t, rep.Sig{"kind": kind, "identifier": strings.Join(cl, "+"), "backend": backend}, string(ms)+"\n"+msg+"\n--- renamed source\n"+renamed, c)
 	})
+}
+
+
+// c10MultiFile: the renaming relation on a program with imported files. An identifier of the MAIN file takes the exact
+// spelling under which a name of an imported file (or any other name) lives in the emitted script - e.g. <file prefix>_<name>
+// - read off the script of the base program. The renamed program must be rejected or behave like the base program.
+func c10MultiFile(t *rapid.T, r *rep.R) bool {
+	sp, ok := c09BuildSplit(t)
+	if !ok {
+		return false
+	}
+	srcs := ts.Sources(sp.prog)
+	others := map[string]string{}
+	for k, v := range srcs {
+		if k != "main.tsh" {
+			others[k] = v
+		}
+	}
+	vars, funcs := map[string]bool{}, map[string]bool{}
+	(&ts.Rewriter{Name: func(n, role string) string {
+		if role == "func" {
+			funcs[n] = true
+		} else if role != "alias" {
+			vars[n] = true
+		}
+		return n
+	}}).Stmts(sp.prog.Files["main.tsh"].Stmts)
+	user := map[string]bool{}
+	for n := range vars {
+		user[n] = true
+	}
+	for n := range funcs {
+		user[n] = true
+	}
+	for _, n := range sp.movedPublic {
+		user[n] = true
+		delete(funcs, n) // names of imported functions are not renamed here
+	}
+	tr := run.TranspileSrc(srcs, "main.tsh", run.Bash)
+	if !tr.Accepted() {
+		return false // C09 reports that
+	}
+	pool := mangledSpellings(tr.Script, false, user)
+	cands := []string{}
+	for n := range vars {
+		cands = append(cands, n+"/variable")
+	}
+	for n := range funcs {
+		cands = append(cands, n+"/function")
+	}
+	sort.Strings(cands)
+	if len(pool) == 0 || len(cands) == 0 {
+		return false
+	}
+	key := cands[gen.Uniform(0, len(cands)-1).Draw(t, "mf-ident")]
+	nn := pool[gen.Uniform(0, len(pool)-1).Draw(t, "mf-name")]
+	mapping := map[string]string{key: nn}
+	renamedStmts := (&ts.Rewriter{Name: func(n, role string) string {
+		k := n + "/variable"
+		if role == "func" {
+			k = n + "/function"
+		}
+		if v, ok := mapping[k]; ok {
+			return v
+		}
+		return n
+	}}).Stmts(sp.prog.Files["main.tsh"].Stmts)
+	mainF := *sp.prog.Files["main.tsh"]
+	mainF.Stmts = renamedStmts
+	renamed := ts.FileString(&mainF)
+	c := renameCase{Kind: "rename-pair", Property: "C10", Base: srcs["main.tsh"], Renamed: renamed, Mapping: mapping, Others: others}
+	r.Eval()
+	r.Class("rename:multi-file-mangled-spelling/" + strings.SplitN(key, "/", 2)[1])
+	r.NonTrivial(renamed+nn, map[string]any{"mapping": mapping, "renamed": renamed, "other_files": others})
+	kind, msg := checkRenamePair(c)
+	backend := "bash"
+	if kind == "" && sp.ref.MaxAbs <= 2147483647 && !sp.ref.Overflow {
+		cb := c
+		cb.Backend = "batch"
+		if kind, msg = checkRenamePair(cb); kind != "" {
+			backend, c = "batch", cb
+		}
+	}
+	if kind != "" {
+		ms, _ := json.Marshal(mapping)
+		r.FailCase(t, rep.Sig{"kind": kind, "identifier": "multi-file-mangled-spelling", "backend": backend}, string(ms)+"\n"+msg+"\n--- renamed main\n"+renamed+"--- imported files\n"+mainSource(others, ""), c)
+	}
+	return true
 }
